@@ -18,4 +18,8 @@ AnyWire == /\ phase = [u \in Users |-> "idle"] /\ holder = None
            /\ wire \in UNION {[1 .. k -> [u : {U0}, op : {1}, dir : {"req", "rsp"}, cnt : {0, 1, 2, 7}]] : k \in 0 .. 5}
 AnyInit == AnyHold \/ AnyWire
 AnyNext == UNCHANGED mvars
+(* the Apalache wrapper Ind_Mailbox restates the actions: same behaviours as the original *)
+W == INSTANCE Ind_Mailbox
+WSpec == W!MSpec
+WIndInv == W!IndInv
 =============================================================================
